@@ -42,8 +42,9 @@ THEOREMS = [
     (M, "C18.read_replaces_context", "every readUnicode/readFile/readContents REPLACES the per-parse Context: whatever the shared parser held before (any text, a filled line cache, the .inc filter switched on), afterwards it holds a new Context with the given contents, no line cache, filter_empty_lines False; counter and older Contexts untouched"),
     (M, "C18.parse_is_read_then_walk", "parse = read followed by a walk of the new Context (same listing, counter, contexts, filter flag): a walk right after a read never sees anything of the text read before, even when it is the same text"),
     (M, "C18.parse_twice_same_listing", "reading the same text twice in a row through the same parser gives the listing of the first parse again (fresh junk ids), every format and text, also an .inc text that ends with the filter switched on"),
-    (M, "C18.rewalk_same_listing", "walking the Context a parser holds once more returns the same listing with fresh junk ids, for every format but .inc"),
-    (M, "C18.rewalk_inc_depends_on_flag", "negation witness: a second walk of the same .inc Context starts with the flag the first one left (Junk becomes Whitespace); no tool walks a Context twice"),
+    (M, "C18.rewalk_same_listing", "walking the Context a parser holds once more returns the same listing with fresh junk ids, for EVERY format including .inc (DefinesParser.walk resets filter_empty_lines when a pass starts)"),
+    (M, "C18.rewalk_ignores_flag", "the filter flag a walk left on the DefinesParser's Context plays no role for the next walk of that Context"),
+    (M, "C18.rewalk_inc_same_as_first_walk", "evaluated on .inc texts that end with the filter switched on ('#define a\\n\\n#filter emptyLines\\n', '#a b\\n\\n#filter emptyLines'): the second walk of the same Context lists what the parse listed (blank line = Junk both times)"),
     (M, "C18.filter_stale_after_add_rules", "negation witness for Op.safe: a rule added after a filter query of the same locale is not seen (Python never resets _cache): error instead of ignore"),
     (M, "C18.lint_depends_on_history_when_keys_clash", "negation witness: without NoJunkLike1 the linter reports a duplicate in a fresh interpreter only (finding F8, lint face)"),
     (M, "C18.multi_file_union_observer_order", "the Observer's aggregation (C10 model: details tree + summaries) of a multi-file run is the same for every order of the file pairs: same details under every path, same number in every summary cell, every quiet level and filter"),
@@ -58,8 +59,9 @@ PARTIAL = [
     "ProjectConfig objects are modelled without children and excludes (the recursion of _filter is C14's); add_rules/add_paths "
     "after a filter query are modelled exactly (stale _cache) and excluded from the invariant by Op.safe, with a negation witness; "
     "run_independent_all is stated for histories without these two mutators",
-    "rewalk (walking a Context twice) and reobs are not closed operations: their argument is a piece of the state; they have "
-    "their own theorems (rewalk_same_listing, rewalk_inc_depends_on_flag, entities_survive)",
+    "rewalk (walking a Context again) and reobs are not closed operations: their argument is the Context / entry the parser or "
+    "tool holds, i.e. a piece of the state; they have their own theorems (rewalk_same_listing for all formats, "
+    "rewalk_ignores_flag, entities_survive)",
     "multi_file_union is proved for the model's compare operation; the Observer's aggregation (details tree, summary sums) is "
     "checked by the oracle against the C10 model (all orders of small projects), compareProjects and the filter cache by the "
     "oracle (two-locale projects = union of the single-file single-locale projects)",
@@ -230,7 +232,7 @@ def gen_pair(rng, fmt):
 def gen_op(rng, kind=None, fmt=None):
     kind = kind or rng.choice(["parse", "parse", "compare", "compare", "compare", "lint", "merge", "serialize",
                                "mozmatch", "project", "files", "add", "hasparser", "chan", "getparser", "matcherq", "cfgq",
-                               "mozfn", "rewalk"])
+                               "mozfn", "rewalk", "walk2"])
     fmt = fmt or rng.choice(FORMATS)
 
     def rename(op):
@@ -290,6 +292,9 @@ def gen_op(rng, kind=None, fmt=None):
     if kind == "rewalk":
         # walks whatever Context the shared parser holds: a disturbance for the others, not compared itself
         return {"op": "rewalk", "fmt": fmt, "nocmp": True}
+    if kind == "walk2":
+        ref, l10n = gen_pair(rng, fmt)
+        return {"op": "walk2", "fmt": fmt, "text": rng.choice([ref, l10n] + STATEFUL.get(fmt, []))}
     if kind == "matcherq":
         return gen_matcherq(rng)
     if kind == "cfgq":
@@ -668,7 +673,7 @@ def m_line(ops):
 # texts that leave state behind on the Context they were read into (inc: filter switched on at the end, blank lines
 # before it; BOM; files ending in junk or in a comment without newline)
 STATEFUL = {
-    "inc": ["#define a 1\n\n\n#define b 2\n#filter emptyLines\n", "#define a\n\n#filter emptyLines\n",
+    "inc": ["#define a 1\n\n\n#define b 2\n#filter emptyLines\n", "#define a\n\n#filter emptyLines\n", "#a b\n\n#filter emptyLines",
             "# c\n\n\n#define a 1\n#filter emptyLines\n\n\n#define b 2\n", "#filter emptyLines\n\n\n#define a 1\n#unfilter emptyLines\n\n\n"],
     "dtd": ['\ufeff<!ENTITY a "x">\n<!ENTITY b "y">\n', '<!ENTITY a "x">\n<!-- trailing', '<!ENTITY a "x">\njunk <'],
     "properties": ["\ufeffa=1\nb=2\n", "a=1\n# trailing comment", "a=1\nzzz", "a=line\\\n"],
@@ -689,7 +694,8 @@ def repeat_histories(ctx, rng):
         for _ in range(2 if ctx.tier == "quick" else 6):
             texts.append(rng.choice(gen_pair(rng, fmt)))
         if ctx.tier == "quick":
-            texts = rng.sample(texts, min(len(texts), 3))
+            keep = list(STATEFUL["inc"][:3]) if fmt == "inc" else []       # the texts that end with the filter switched on
+            texts = keep + rng.sample(texts, 1 if keep else min(len(texts), 3))
         for a in texts:
             b = rng.choice(gen_pair(rng, fmt))
             pa = {"op": "parse", "fmt": fmt, "text": a}
@@ -701,8 +707,9 @@ def repeat_histories(ctx, rng):
             lra = {"op": "lint", "fmt": fmt, "cur": a, "ref": a}
             fa = {"op": "parse", "fmt": fmt, "text": a, "via": "file"}
             ma = {"op": "merge", "fmt": fmt, "ref": b, "l10n": a}
+            w2 = {"op": "walk2", "fmt": fmt, "text": a}
             shapes = [[pa, pa], [pa, cab], [pb, pa, cab], [pa, caa], [pa, la], [pa, lra], [pa, fa, fa], [pa, ma],
-                      [pa, {"op": "rewalk", "fmt": fmt, "nocmp": True}, pa]]
+                      [pa, {"op": "rewalk", "fmt": fmt, "nocmp": True}, pa], [w2, pa], [pa, w2]]
             if ctx.tier != "quick":
                 shapes += [[caa, caa], [la, la], [pa, cba], [cba, pa]]
             for h in shapes:
@@ -1257,8 +1264,9 @@ def _run(ctx, out, base):
                 continue
             if r.get("stale") and opkey(o) not in stale_seen:
                 stale_seen.add(opkey(o))
-                out.violations.append({"what": "%s: an object that was used before answers differently from a freshly built "
-                                       "one: %s" % (o["op"], r["stale"]), "input": {"history": [o], "index": 0}, "finding": None})
+                out.violations.append({"what": ("walk2: a later pass over the same Context does not see what the first pass saw: %s"
+                                                if o["op"] == "walk2" else "%s: an object that was used before answers differently "
+                                                "from a freshly built one: %%s" % o["op"]) % (str(r["stale"])[:800],), "input": {"history": [o], "index": 0}, "finding": None})
             if r["canon"] != fr["canon"]:
                 finding = FINDING if clash_rootcause(o, [fr["jid"], r["jid"]]) else None
                 if h[i].get("probe"):
